@@ -23,8 +23,9 @@ QUICK_TIMEOUT_MS = int(os.environ.get('VERIF_Z3_TIMEOUT_MS', '20000'))
 class LoopAnn(object):
     """annotation of one loop (keyed by ordinal in source order inside the function under contract)"""
 
-    def __init__(self, invariant, index='k', modifies=(), variant=None, locals_=None, havoc_skip=()):
+    def __init__(self, invariant, index='k', modifies=(), variant=None, locals_=None, havoc_skip=(), unfold=None):
         self.invariant, self.index, self.modifies, self.variant = invariant, index, tuple(modifies), variant
+        self.unfold = unfold        # fn(vm, env, k) -> ground instances of spec-function definitions at k
         self.locals_ = locals_ or {}
         self.havoc_skip = set(havoc_skip)
         self.ordinal = None
@@ -85,6 +86,9 @@ class LoopAnn(object):
             if vm.check_sat([]) == z3.unsat:
                 raise PathEnd()
             self.assume_inv(vm, env, k)
+            if self.unfold:
+                for fact in self.unfold(vm, env, k):
+                    vm.assume(fact)
             vm.path.stored = set()
             vm.assign_target(node.target, it.elem(k), env)
             try:
@@ -199,6 +203,16 @@ class Contract(object):
         if byte not in self._rep_fns:
             self._rep_fns[byte] = z3.Function('rep_%02x' % byte, z3.IntSort(), pyvc.ByteSeq)
         return self._rep_fns[byte]
+
+    def rep_axioms(self):
+        """b * n: length n (n >= 0) and every byte is b"""
+        out = []
+        n, i = z3.Ints('rep_n rep_i')
+        for byte, f in self._rep_fns.items():
+            out.append(z3.ForAll([n], z3.Implies(n >= 0, z3.Length(f(n)) == n), patterns=[f(n)]))
+            out.append(z3.ForAll([n], z3.Implies(n > 0, z3.SubSeq(f(n), 0, 1) == z3.Unit(z3.BitVecVal(byte, 8))), patterns=[f(n)]))
+            out.append(f(0) == z3.Empty(pyvc.ByteSeq))
+        return out
 
     def str_const(self, s):
         if s not in self._strs:
@@ -355,6 +369,7 @@ def verify_function(contract, timeout_ms=None, want_models=True):
     d = contract.str_distinct_axiom()
     if d is not None:
         extra_axioms.append(d)
+    extra_axioms.extend(contract.rep_axioms())
     names = {}
     for ob in vm.obligations:
         c = names.get(ob.name, 0)
@@ -431,6 +446,13 @@ def discharge(ob, axioms, timeout_ms, contract, want_models=True):
         elif v == 'sat':
             ob.verdict, ob.backend = 'refuted', 'cvc5'
             ob.model = {'note': 'cvc5 found the negated obligation satisfiable'}
+            ob.time = time.time() - t0
+            return
+    if r == z3.unknown:
+        from .lenabs import length_refute
+        m = length_refute(ob.pc, ob.goal)
+        if m is not None:
+            ob.verdict, ob.model, ob.backend = 'refuted', m, 'z3-length'
             ob.time = time.time() - t0
             return
     if r == z3.unknown:
